@@ -13,13 +13,20 @@ import (
 	"verif/engine/sym"
 )
 
+func replayRoot() string {
+	if d := os.Getenv("VERIF_REPLAY_DIR"); d != "" {
+		return d
+	}
+	return filepath.Join(verifDir, "replay")
+}
+
 // replayViolation writes the replay artefact for v and re-runs the harness natively
 // (go test -tags verif -overlay ...) with the solver's model as replay table.
 // It returns the artefact path and whether the violation reproduced against the real build.
 func replayViolation(prop string, v sym.Violation) (string, bool, string) {
 	mj, _ := json.Marshal(v.Model)
 	h := sha1.Sum(append([]byte(v.Harness+"|"+v.Label+"|"), mj...))
-	dir := filepath.Join(verifDir, "replay", prop, fmt.Sprintf("%x", h[:6]))
+	dir := filepath.Join(replayRoot(), prop, fmt.Sprintf("%x", h[:6]))
 	os.MkdirAll(dir, 0755)
 	model := map[string]interface{}{"harness": v.Harness, "failed": v.Label, "inputs": v.Model, "path": v.Decisions, "detail": v.Detail, "pc": v.PC}
 	b, _ := json.MarshalIndent(model, "", " ")
